@@ -31,6 +31,11 @@ EXCEPTIONS = {
     "R-TS|choice-read|ShaclSerializer._add_in_instance|statement.st_type":
         "reached only for statements of the instantiation property (_add_constraint dispatches on it); "
         "_group_node_constraints passes those through unmerged, so they are never choice statements",
+    # ------------------------------------------------------------------- R-DET
+    "R-DET|set|RdflibSgraph.yield_classes_with_instances|set()":
+        "called only from produce_shape_map_according_to_input under all_classes_mode=True, which only "
+        "_yielder_for_url_endpoint passes - together with an EndpointSGraph; for an RdflibSgraph the method is "
+        "unreachable from the API (argument correlation the context-insensitive call graph cannot see)",
 }
 
 
